@@ -548,7 +548,12 @@ def rule_R10(ck):
     """emit_files writes every requested output with its own format and its own arguments, at its own path"""
     repo = ck.repo
     writes = []
-    I = eager_interp(repo, extra={"bk_wav::encode_as_wav": lambda I_, f, a, k: sym.op("wav", *a, *[v for _, v in sorted(k.items())])})
+    def wav(I_, f, a, k):
+        names = ["base", "code", "bk_filename", "turbo"]
+        b = dict(zip(names, a))
+        b.update(k)
+        return sym.op("wav", b["base"], b["code"], b["bk_filename"], bool(b.get("turbo", False)))
+    I = eager_interp(repo, extra={"bk_wav::encode_as_wav": wav})
 
     def open_device(I_, fn, a, k):
         path = a[0]
@@ -572,7 +577,7 @@ def rule_R10(ck):
     if len(ps) != 1 or ps[0].kind != "return":
         ck.violation(where, f"emit_files with five outputs does not complete on one path: {ps}", construct="emit_files paths")
         return
-    want = [("one.wav", sym.op("wav", BASE, CODE, N1)), ("two.wav", sym.op("wav", BASE, CODE, N2)), ("three.raw", CODE),
+    want = [("one.wav", sym.op("wav", BASE, CODE, N1, False)), ("two.wav", sym.op("wav", BASE, CODE, N2, False)), ("three.raw", CODE),
             ("four.bin", sym.cat(sym.pack("<HH", BASE, sym.length(CODE)), CODE)), ("five.wav", sym.op("wav", BASE, CODE, N2, True))]
     got = ps[0].value
     for w in want:
@@ -592,5 +597,6 @@ def run(ck):
     ck.run_rule("C13.R5", "pulse tables, levels, rates", 13, rule_R5)
     ck.run_rule("C13.R6", "checksum is an end-around-carry sum", 1, rule_R6)
     ck.run_rule("C13.R7", "output path derivation and suffix-strip agreement", 8, rule_R7)
-    ck.run_rule("C13.R7c", "CLI: -o format by suffix, --implicit-bin name", 2, rule_R7cli)
     ck.run_rule("C13.R8", "tape name: encode, 16-byte bound, padding", 2, rule_R8)
+    from ..rules import climodel
+    ck.run_rule("CLI", "main_cli over all output configurations: every requested output at its path with exactly the image", 500, climodel.rule_cli, ("writes",))
